@@ -81,7 +81,8 @@ Definition rx_print1 (r : rx) : string :=
 Definition rx_print (l : list rx) : string := sconcat (map rx_print1 l).
 
 Inductive err := EValue (* ValueError *) | EAssert (* AssertionError *) | EFuel | EIndex (* IndexError: no such group *)
-               | ETrunc (* re.Pattern.__repr__ cut the pattern: the emitted line is not Python *).
+               | ETrunc (* re.Pattern.__repr__ cut the pattern: the emitted line is not Python *)
+               | EUndef (* jinja2 UndefinedError: 'None' has no attribute 'routing_parameters' *).
 Inductive res (A : Type) := Ok (a : A) | Err (e : err).
 Arguments Ok {A} a.
 Arguments Err {A} e.
@@ -303,12 +304,33 @@ Definition py_repr_len (s : string) : nat :=
 (* the template prints  repr(re.compile(p)) : CPython formats the pattern with %.200R *)
 Definition repr_fits (pattern : string) : bool := Nat.leb (py_repr_len pattern) 200.
 
+(* RoutingParameter.sample_request (rendered into the unit-test template, so it runs on every generation):
+   uri_sample.sample_from_path_template takes the text between the first opening and the first closing brace
+   and calls .index("=") on it -- ValueError when there is none. *)
+Fixpoint cut_at (c : ascii) (s : string) : option (string * string) :=
+  match s with
+  | EmptyString => None
+  | String a s' => if Ascii.eqb a c then Some (EmptyString, s')
+                   else match cut_at c s' with Some (x, y) => Some (String a x, y) | None => None end
+  end.
+Definition sample_request_ok (t : string) : bool :=
+  match cut_at lbrace t with
+  | None => true
+  | Some (before, after) =>
+      if contains rbrace before then false
+      else match cut_at rbrace after with
+           | None => false
+           | Some (inner, _) => contains eqc inner
+           end
+  end.
+
 Definition emit_param (p : param) : res block :=
   if is_empty (p_template p) then Ok (BPlain (disambiguated (p_field p)) (p_field p))
   else match convert_to_regex (p_template p) with
        | Err e => Err e
        | Ok r => let pat := "^" ++ rx_print r ++ "$" in
-                 if repr_fits pat then Ok (BRegex pat (disambiguated (p_field p)) (key_of (p_field p) r))
+                 if negb (sample_request_ok (p_template p)) then Err EValue
+                 else if repr_fits pat then Ok (BRegex pat (disambiguated (p_field p)) (key_of (p_field p) r))
                  else Err ETrunc
        end.
 
@@ -412,7 +434,10 @@ Inductive emitted :=
 Definition emit_metadata (m : method) : res emitted :=
   match m_explicit m with
   | Some ps => if m_client_streaming m then Ok (EExplicit [])
-               else match map_res emit_param ps with Ok bs => Ok (EExplicit bs) | Err e => Err e end
+               else match ps with
+                    | [] => Err EUndef       (* routing_rule is None for an annotation without parameters *)
+                    | _ => match map_res emit_param ps with Ok bs => Ok (EExplicit bs) | Err e => Err e end
+                    end
   | None => match field_headers (m_http m) with
             | [] => Ok ENothing
             | fh => Ok (EImplicit (if m_client_streaming m then [] else map (fun raw => (raw, disambiguated raw)) fh))
@@ -425,23 +450,26 @@ Definition emit_async := emit_metadata.
 (* a request is read through attribute paths *)
 Definition request := string -> string.
 
-(* the header value computed at run time: None = no x-goog-request-params entry is appended *)
+(* the header value computed at run time by the emitted code: None = no x-goog-request-params entry is appended;
+   an error when no client was emitted at all *)
 Definition header_of (m : method) (req : request) : res (option string) :=
-  match m_explicit m with
-  | Some ps =>
-      if m_client_streaming m then Ok None else
-      match map_res (fun p => contribution p (req (disambiguated (p_field p)))) ps with
-      | Err e => Err e
-      | Ok cs => match dict_of (somes cs) with
-                 | [] => Ok None
-                 | d => Ok (Some (to_routing_header d))
-                 end
+  match emit_metadata m with
+  | Err e => Err e
+  | Ok ENothing => Ok None
+  | Ok (EImplicit pairs) => Ok (Some (to_routing_header (map (fun ra => (fst ra, req (snd ra))) pairs)))
+  | Ok (EExplicit _) =>
+      match m_explicit m with
+      | None => Ok None
+      | Some ps =>
+          if m_client_streaming m then Ok None else
+          match map_res (fun p => contribution p (req (disambiguated (p_field p)))) ps with
+          | Err e => Err e
+          | Ok cs => match dict_of (somes cs) with
+                     | [] => Ok None
+                     | d => Ok (Some (to_routing_header d))
+                     end
+          end
       end
-  | None => match field_headers (m_http m) with
-            | [] => Ok None
-            | fh => Ok (Some (to_routing_header
-                        (if m_client_streaming m then [] else map (fun raw => (raw, req (disambiguated raw))) fh)))
-            end
   end.
 
 (* delivery: the gRPC transports send the metadata tuple as it is; the REST transport sends dict(metadata) as
@@ -558,7 +586,7 @@ Definition contrib_eqb (a b : option (string * string)) : bool := option_eqb (pa
 (* ---- comparison helpers for the correspondence checks ---- *)
 Definition err_eqb (a b : err) : bool :=
   match a, b with
-  | EValue, EValue | EAssert, EAssert | EFuel, EFuel | EIndex, EIndex | ETrunc, ETrunc => true
+  | EValue, EValue | EAssert, EAssert | EFuel, EFuel | EIndex, EIndex | ETrunc, ETrunc | EUndef, EUndef => true
   | _, _ => false
   end.
 Definition res_eqb {A} (eqb : A -> A -> bool) (a b : res A) : bool :=
@@ -574,3 +602,13 @@ Definition supported_template (t : string) : bool :=
   match convert_to_regex t with Ok r => rx_supported r | Err _ => false end.
 Definition match_template (t v : string) : res (option (option string)) :=
   match convert_to_regex t with Ok r => Ok (rx_match r v) | Err e => Err e end.
+Definition emitted_eqb (a b : emitted) : bool :=
+  match a, b with
+  | EExplicit x, EExplicit y => list_eqb block_eqb x y
+  | EImplicit x, EImplicit y => pairs_eqb x y
+  | ENothing, ENothing => true
+  | _, _ => false
+  end.
+(* a request given as an association list from attribute paths to values *)
+Definition req_of (l : list (string * string)) : request :=
+  fun p => match assoc p l with Some v => v | None => EmptyString end.
